@@ -404,8 +404,9 @@ def run_wc_once(case, plan):
     d = drive(wc, loop, plan, case.get('media', ['copy']), True)
     wc, loop, failure = d.proc, d.loop, d.failure
     out = {'bounds': d.bounds, 'idem': d.idem, 'restored': d.restored, 'diverged': d.diverged,
-           'calls': wc.ctx._trace, 'ctx': user_ctx(wc),
-           'outs': [[k, jv(v)] for k, v in wc.outputs.items()], 'pi': wc.ctx._pi, 'ri': wc.ctx._ri,
+           'calls': wc.ctx.__dict__.get('_trace', [['s', 'ctx-lost']]), 'ctx': user_ctx(wc),
+           'outs': [[k, jv(v)] for k, v in wc.outputs.items()], 'pi': wc.ctx.__dict__.get('_pi', 0),
+           'ri': wc.ctx.__dict__.get('_ri', 0),
            'state': wc.state.value}
     if failure:
         out['result'] = failure
@@ -429,7 +430,7 @@ def run_proc_once(case, plan):
     d = drive(p, loop, plan, case.get('media', ['copy']), False, resume=case['resume'])
     p, loop, failure = d.proc, d.loop, d.failure
     out = {'bounds': [b['state'] for b in d.bounds], 'idem': d.idem, 'restored': d.restored,
-           'trace': [[t[0], jv(t[1]), [[k, jv(v)] for k, v in t[2]]] for t in p.ctx._trace],
+           'trace': [[t[0], jv(t[1]), [[k, jv(v)] for k, v in t[2]]] for t in p.ctx.__dict__.get('_trace', [['ctx-lost', [], []]])],
            'ctx': user_ctx(p), 'outs': [[k, jv(v)] for k, v in p.outputs.items()], 'state': p.state.value}
     if failure:
         out['result'] = failure
